@@ -118,6 +118,7 @@ func main() {
 	genVersionFacts(c)
 	genFacts(c, sch)
 	genScanBlocks(c)
+	genBuilder(c)
 	if sch != nil {
 		genResolver(c, sch)
 		genFormatter(c, sch)
